@@ -26,27 +26,29 @@ def H(cmd, oracle, quick, thorough, **kw):
     return d
 
 MONAD_H = [H('monad_' + p, 'oracle_monad', 3000, 150000, oracle_args=[p], spec_level=True) for p in ('try', 'option', 'either', 'statet')]
-TRYOPT_H = H('tryopt', 'oracle_tryopt', 4000, 200000, spec_level=True)
+TRYOPT_H = H('tryopt', 'oracle_tryopt', 4000, 200000, spec_level=True, extra=dict(quick=['-prop', 'C01'], thorough=['-prop', 'C01']))
+TRYOPT_C02_H = H('tryopt', 'oracle_tryopt', 4000, 200000, spec_level=True, extra=dict(quick=['-prop', 'C02'], thorough=['-prop', 'C02']))
 # the ApplicativeN / ChainN builders of option and try (and every other arity family) live in the C14 machinery
 ARITY_H = H('arity', 'oracle_arity', 8000, 400000, spec_level=True, nontrivial=lambda op, impl: op.count(' ') >= 3)
 
 CHECKS = {
     'C01': dict(
-        spec=['FpVerif.Spec.C01', 'FpVerif.Spec.C01Inst'],
-        harnesses=MONAD_H + [TRYOPT_H, ARITY_H],
+        spec=['FpVerif.Spec.C01', 'FpVerif.Spec.C01Inst', 'FpVerif.Spec.C01T'],
+        harnesses=MONAD_H + [TRYOPT_H, ARITY_H, H('iter', 'oracle_iter', 4000, 400000, extra=dict(quick=['-prop', 'C12'], thorough=['-prop', 'C12']))],
         level='proof',
         modelled='X_monad.go + X_traverse.go of option/try/either/statet (one generic model of the generator template, '
                  'instantiated four times; every arity through operand lists); FlatMap/Pure/FoldM and the hand-written cores of '
                  'try_op.go, option_op.go, either_op.go; methods of fp.Try/fp.Option/fp.Either. Iterator/List monads: C12; lazy.Eval: C16. '
                  'MonadChainN/ApplicativeFunctorN builders: model and theorems in Spec/C14 (chain_def, applicative_def), exercised here through the arity harness. '
-                 'Not modelled: SeqT/OptionT transformer functions, fn0/fn1.',
+                 'try.OptionT / try.SeqT transformer functions (try_optiont.go, try_seqt.go: core six + the Transform family) in Model/TryOpt.lean (TryT), Spec/C01T. '
+                 'Iterator and lazy List monads through the C12 harness. Not modelled: fn0/fn1.',
         assumptions=['Go evaluates call arguments before the call and left to right; every M-typed argument of the generated family is a '
                      'variable or a nested call used exactly once (checked by the correspondence, not proved)',
                      'iterators handed to FoldM/Traverse are viewed as the finite list they yield (pull behaviour: C12/C20)'],
     ),
     'C02': dict(
         spec=['FpVerif.Spec.C02'],
-        harnesses=MONAD_H + [TRYOPT_H, ARITY_H, H('statet', 'oracle_statet', 3000, 100000, spec_level=True)],
+        harnesses=MONAD_H + [TRYOPT_C02_H, ARITY_H, H('statet', 'oracle_statet', 3000, 100000, spec_level=True)],
         level='proof',
         modelled='as C01; in addition try.Of/Call/CallUnit (recover -> tryCatch), Recover*/Or*/OrElse* of fp.Try/fp.Option/fp.StateT. '
                  'future.Apply/Apply2: C06.',
